@@ -28,7 +28,8 @@ def register_custom():
     def mk(kind, ident, arity):
         # the classes are related by inheritance ACROSS arities: c4b (four parameters, the fourth not named
         # current_rule) derives from the three-parameter c3a, and c3b (three parameters) from the four-parameter c4a
-        base = {41: classes.get('c3a'), 31: classes.get('c4a')}.get(ident) or _checks.Check
+        # ... and the three-parameter c3a derives from a built-in concrete check (RuleCheck)
+        base = {41: classes.get('c3a'), 31: classes.get('c4a'), 30: _checks.RuleCheck}.get(ident) or _checks.Check
         if arity == 3:
             class C(base):
                 def __call__(self, target, creds, enforcer):
@@ -71,13 +72,14 @@ def install_http_stub(outcome):
     from oslo_policy import _external
     import requests
 
-    class Reply:
-        def __init__(self, text):
-            self.text = text
-            self.status_code = outcome[2] if len(outcome) > 2 else 200
-
-        def close(self):
-            pass
+    def Reply(body):
+        # a REAL requests.Response (its truth value follows the status code, .text decodes .content, ...)
+        r = requests.Response()
+        r.status_code = outcome[2] if len(outcome) > 2 else 200
+        r._content = body if isinstance(body, bytes) else body.encode('utf-8')
+        r.encoding = 'utf-8'
+        r.url = 'http://stub/'
+        return r
 
     def post(url, json=None, data=None, timeout=None, **kw):
         rule = json['rule'] if json is not None else __import__('json').loads(data['rule'])
@@ -163,7 +165,8 @@ def enc_default(d):
 
 def enc_http(h):
     if h[0] == 'reply':
-        return [0, S(h[1])]
+        # what the server sent, as text: undecodable bytes are U+FFFD (requests' own decoding of the body)
+        return [0, S(h[1].decode('utf-8', 'replace') if isinstance(h[1], bytes) else h[1])]
     if h[0] == 'timeout':
         return [1]
     return [2, 1000 + 1]
@@ -250,7 +253,10 @@ def run_impl(case, deep=None):
         from common import work_dir
         kw['policy_file'] = os.path.join(work_dir(), 'pf_%d.json' % os.getpid())
         with open(kw['policy_file'], 'w') as f:
-            _json.dump(case['rules'], f)
+            if case.get('file_text') is not None:
+                f.write(case['file_text'])      # another spelling of the same (empty) rule set
+            else:
+                _json.dump(case['rules'], f)
         e = policy.Enforcer(conf, **kw)
     elif case.get('from_dir'):
         # ... or only a policy directory, with no policy file at all
@@ -271,10 +277,14 @@ def run_impl(case, deep=None):
         conf.set_override('enforce_scope', bool(case.get('enforce_scope', True)), group='oslo_policy')
     for name, types in case.get('registered', {}).items():
         e.register_default(policy.RuleDefault(name, case.get('registered_check', {}).get(name, '!'),
-                                              scope_types=types or None))
+                                              scope_types=types))      # None, or a list (possibly empty)
     carrier = case.get('carrier', 'rules_same')
     if case.get('from_file') or case.get('from_dir'):
-        e.load_rules()
+        try:
+            e.load_rules()
+        except Exception as ex:   # noqa
+            # loading is part of every enforcement call: what it raises is what the caller of enforce sees
+            return ('exc', type(ex).__name__, str(ex)[:200]), []
     elif case.get('prehistory') is not None and carrier == 'rules_same':
         # the rule store has a past: SOME names had other definitions (the rest already what they are now), the
         # enforced rule and an undefined name were evaluated under them, and then the current definitions of
